@@ -397,8 +397,8 @@ BK = ["lib/src/backends.rs", "lib/src/retry.rs"]
 REGISTRY["C12"] = {
     "engine": "mir",
     "technique": "symbolic execution of the MIR of the per-backend eligibility predicates and connection counters into SMT (z3 + cvc5)",
-    "level_text": "z3 and cvc5 both decide that Backend::can_open is exactly healthy && status == Normal && can_try() == Some(OKAY), that Backend::is_available is exactly healthy && status == Normal && !is_down() (the compared constants are read from the promoted MIR constants), and that one inc_connections / dec_connections step from an arbitrary (status, active_connections) never wraps, changes the count by exactly one only when allowed, never touches a Closed backend, and retires a Closing backend exactly when it reaches zero - an inductive step, so counts return to zero iff increments on Normal equal decrements, for any history.",
-    "level_note": "The backend *list* (cascade primary -> backup -> fail-open, sticky lookup, policies, Maglev/HRW) could not be executed by CBMC (measured out of memory at 2 backends) and is not encoded here either; back-off arithmetic (random_range, Instant) is not claimed.",
+    "level_text": "z3 and cvc5 both decide that Backend::can_open is exactly healthy && status == Normal && can_try() == Some(OKAY), that Backend::is_available is exactly healthy && status == Normal && !is_down() (the compared constants are read from the promoted MIR constants), and that one inc_connections / dec_connections step from an arbitrary (status, active_connections) never wraps, changes the count by exactly one only when allowed, never touches a Closed backend, and retires a Closing backend exactly when it reaches zero - an inductive step, so counts return to zero iff increments on Normal equal decrements, for any history; that the three candidate filters are exactly their documented predicates (fail-open never consults health); and that the selection cascade asks primary, then backup only if primary is empty, then fail-open only if both are empty, with exactly one policy call on the first non-empty tier.",
+    "level_note": "The backend list as a data structure is not executed (CBMC ran out of memory at 2 backends): the cascade is checked as control flow over uninterpreted tier sets, the filters as predicates of one backend. Load-balancing policies (round robin, Maglev, HRW...), 'the policy returns a member of the set it was given', back-off arithmetic (random_range, Instant) are not claimed.",
     "rule": "C12: one obligation per predicate / counter function.",
     "trusted_base": [],
     "assumptions": ["HealthState::is_healthy, RetryPolicy::can_try / is_down and the derived PartialEq::eq of the two field-less enums are arbitrary booleans; eq's operands are checked to be (self.status, Normal) and (action, OKAY)"],
@@ -408,6 +408,8 @@ REGISTRY["C12"] = {
         M("c12_is_available_predicate", "whole function", "is_available <=> healthy && status == Normal && !is_down()", BK, prop="c12", which="predicate", fn="is_available"),
         M("c12_inc_connections_step", "arbitrary (status, active_connections)", "count +1 exactly on Normal backends, untouched otherwise", BK[:1], prop="c12", which="counters", fn="inc_connections"),
         M("c12_dec_connections_step", "arbitrary (status, active_connections)", "never below zero; -1 exactly when positive and not Closed; Closing reaching zero becomes Closed, nothing else changes the status", BK[:1], prop="c12", which="counters", fn="dec_connections"),
+        M("c12_candidate_filters", "the three candidate-set closures, all inputs symbolic", "available_backends keeps exactly backends with backup == requested tier && can_open(); the fail-open filter keeps exactly status == Normal && can_try() == Some(OKAY) and never consults health; find_sticky returns the sticky match iff can_open()", BK[:1], prop="c12", which="filters"),
+        M("c12_cascade_skeleton", "whole next_available_backend_with_key; emptiness of each tier symbolic (is_empty consistent on an unchanged vector)", "primary tier asked first (backup=false), backup tier only when it is empty, fail-open set only when both are empty, the policy is asked exactly once on the first non-empty tier, never on an empty one", BK[:1], prop="c12", which="cascade"),
     ],
 }
 
